@@ -303,7 +303,7 @@ func runC16(w *mc.Worker) {
 	}
 	var stages []bound
 	if w.Tier == "quick" {
-		stages = []bound{{"w2-e1", 2, 2, 1, false}, {"v2-e1", 2, 1, 1, true}, {"v1-e2", 1, 1, 2, true}, {"w3-e0", 3, 2, 0, false}}
+		stages = []bound{{"w2-e1", 2, 2, 1, false}, {"v2-e1", 2, 1, 1, true}, {"w3-e0", 3, 2, 0, false}, {"v1-e2", 1, 1, 2, true}}
 	} else {
 		stages = []bound{{"w3-e1", 3, 2, 1, false}, {"v2-e2", 2, 1, 2, true}, {"v3-e1", 3, 2, 1, true}, {"w4-e0", 4, 2, 0, false}}
 	}
@@ -314,7 +314,7 @@ func runC16(w *mc.Worker) {
 			desc += ", variables cost nothing (variable-rich scripts)"
 		}
 		w.Stage(b.name, desc, func() {
-			g := &Full{MaxStmts: 2, Depth: b.depth, VarsFree: b.varsFree}
+			g := &Full{MaxStmts: 2, Depth: b.depth, VarsFree: b.varsFree, ExtraUnused: true}
 			w.Outer(b.name+"/script", b.weight, func(o *mc.Explorer) {
 				base := gen.Text(g.Program(o))
 				if !w.Mine(base) {
